@@ -207,6 +207,7 @@ type runner struct {
 	nextVal int64
 	markers  map[int]int // series records written per series
 	restarts int
+	fixed   bool // corpus case
 	stopped bool // the implementation went somewhere the model does not follow: no further steps
 	// all timestamps ever acknowledged, per series (generator steering only)
 	acked map[int][]int64
@@ -513,7 +514,10 @@ func (r *runner) apply(o hop) bool {
 		// minValidTime below the current one (a truncation happened without an in-order block up to
 		// it: the block was empty or was deleted), what the WAL still holds in between decides the
 		// outcome; the model replays the whole log.  The history ends before such a restart.
-		if cps, _ := filepath.Glob(filepath.Join(r.d.Dir, "wal", "checkpoint.*")); len(cps) > 0 {
+		// The same situation without a checkpoint also depends on head chunk files that were truncated
+		// from memory but not yet deleted from disk (not modelled), so generated histories end before
+		// ANY restart that will lower minValidTime; the fixed corpus cases of this kind are kept.
+		if cps, _ := filepath.Glob(filepath.Join(r.d.Dir, "wal", "checkpoint.*")); len(cps) > 0 || !r.fixed {
 			_, _, mvBefore := r.d.HeadTimes()
 			b := int64(math.MinInt64)
 			for _, bl := range r.d.Blocks() {
@@ -522,7 +526,7 @@ func (r *runner) apply(o hop) bool {
 				}
 			}
 			if b < mvBefore {
-				r.classes["stopped-restart-below-minvalid-after-wal-checkpoint"]++
+				r.classes["stopped-restart-lowering-minvalidtime"]++
 				r.stopped = true
 				return false
 			}
@@ -935,7 +939,7 @@ func main() {
 		if err != nil {
 			panic(err)
 		}
-		r := &runner{d: d, n: n, oooWin: win, classes: map[string]int{}, acked: map[int][]int64{}, markers: map[int]int{}}
+		r := &runner{d: d, n: n, oooWin: win, classes: map[string]int{}, acked: map[int][]int64{}, markers: map[int]int{}, fixed: fx != nil}
 		defer func() { r.d.Close() }()
 		for k := 0; k < nops; k++ {
 			var o hop
